@@ -300,6 +300,45 @@ pub fn run(ctx: &mut Ctx) {
         rep.distinct(&format!("{}|{}|{}", src, func_bound, macro_bound), true);
     });
 
+    // ... also when the method is a macro or a function called with arguments: the field's value is what gets "called",
+    // so the call fails, for a bound map exactly as for a literal map; without the field the method runs
+    const METHOD_CALLS: [(&str, &str); 12] = [
+        ("filter", "(k, true)"), ("map", "(k, k)"), ("all", "(k, true)"), ("exists", "(k, true)"), ("exists_one", "(k, true)"),
+        ("reduce", "(acc, k, acc, 0)"), ("has", "(k)"), ("coalesce", "(1)"), ("size", "()"), ("contains", "('a')"), ("max", "(1)"), ("sort", "()"),
+    ];
+    ctx.stage("resolve-field-call", METHOD_CALLS.len() as u64 * 2, false, |idx, _rng, rep| {
+        let (name, args) = METHOD_CALLS[idx as usize / 2];
+        let with_field = idx % 2 == 0;
+        let m = if with_field { vals::mk_map(&[(name, 7.into()), ("other", 1.into())]) } else { vals::mk_map(&[("other", 1.into())]) };
+        let bound_src = format!("m.{}{}", name, args);
+        let lit_src = format!("{}.{}{}", vals::spell(&m).unwrap(), name, args);
+        let nested_src = format!("[m][0].{}{}", name, args);
+        let binds = vec![("m".to_string(), m.clone())];
+        let bound = mon::run1(&bound_src, &binds);
+        let lit = mon::run1(&lit_src, &[]);
+        let nested = mon::run1(&nested_src, &binds);
+        rep.evals += 3;
+        rep.count("resolution_cases");
+        if with_field {
+            for (form, src, out) in [("bound", &bound_src, &bound), ("literal", &lit_src, &lit), ("nested", &nested_src, &nested)] {
+                if !out.is_err() {
+                    rep.viol(
+                        &format!("resolve|field-call|{}|{}|method-won", name, form),
+                        &format!("`{}` on a map with a field `{}` = 7: the field wins, so the call must fail, got {}", src, name, out.show()),
+                        json!({"source": src, "m": canon(&m)}),
+                    );
+                }
+            }
+        } else if bound.canon_anyerr() != lit.canon_anyerr() || bound.canon_anyerr() != nested.canon_anyerr() {
+            rep.viol(
+                &format!("resolve|field-call|{}|forms-differ", name),
+                &format!("`{}` gives {}, `{}` gives {}, `{}` gives {}", bound_src, bound.show(), lit_src, lit.show(), nested_src, nested.show()),
+                json!({"source": bound_src, "m": canon(&m)}),
+            );
+        }
+        rep.distinct(&format!("{}|{}", bound_src, with_field), true);
+    });
+
     // a map field wins over a method of the same name
     ctx.stage("resolve-field", 6, false, |idx, _rng, rep| {
         let f = |_this: CelValue, _args: Vec<CelValue>| -> CelValue { "from-function".into() };
